@@ -693,6 +693,8 @@ ZDICT_optimizeTrainFromBuffer_fastCover(
     accelParams = FASTCOVER_defaultAccelParameters[accel];
     /* Turn down global display level to clean up display at level 2 and below */
     g_displayLevel = displayLevel == 0 ? 0 : displayLevel - 1;
+    /* worker threads must not run the display throttle : its timestamp is a global shared with this thread */
+    if (pool != NULL && g_displayLevel > 1) g_displayLevel = 1;
     /* Loop through d first because each new value needs a new context */
     LOCALDISPLAYLEVEL(displayLevel, 2, "Trying %u different sets of parameters\n",
                       kIterations);
